@@ -12,6 +12,7 @@ import (
 	"time"
 
 	"github.com/getlantern/bytemap"
+	"github.com/getlantern/goexpr"
 	"github.com/getlantern/zenodb/core"
 	"github.com/getlantern/zenodb/encoding"
 	"github.com/getlantern/zenodb/expr"
@@ -63,6 +64,57 @@ type Data struct {
 	Points  []Point  `json:"points"`
 	PartBy  []string `json:"partition_by"`
 	NumPart int      `json:"num_partitions"`
+	// the table's own GROUP BY (empty = GROUP BY *): the stored row key of a point is the
+	// projection of its dimensions through these expressions, while the point is ROUTED to a
+	// partition by its own dimensions
+	TableGB []TGB `json:"table_group_by,omitempty"`
+}
+
+// TGB is one dimension of the table's own GROUP BY.
+type TGB struct {
+	Kind string `json:"k"` // dim (x) | alias (y AS yy) | len (LEN(y) AS ylen)
+	Name string `json:"n"`
+	Arg  string `json:"arg"`
+}
+
+func (g TGB) expr() goexpr.Expr {
+	if g.Kind == "len" {
+		return goexpr.Len(goexpr.Param(g.Arg))
+	}
+	return goexpr.Param(g.Arg)
+}
+
+func (g TGB) SQL() string {
+	switch g.Kind {
+	case "len":
+		return "LEN(" + g.Arg + ") AS " + g.Name
+	case "alias":
+		return g.Arg + " AS " + g.Name
+	}
+	return g.Arg
+}
+
+func (d *Data) tableGroupBy() []core.GroupBy {
+	out := []core.GroupBy{}
+	for _, g := range d.TableGB {
+		out = append(out, core.NewGroupBy(g.Name, g.expr()))
+	}
+	return out
+}
+
+// storedDims projects a point's dimensions through the table's GROUP BY.
+func (d *Data) storedDims(dims map[string]interface{}) map[string]interface{} {
+	if len(d.TableGB) == 0 {
+		return dims
+	}
+	key := bytemap.New(dims)
+	out := map[string]interface{}{}
+	for _, g := range d.TableGB {
+		if v := g.expr().Eval(key); v != nil {
+			out[g.Name] = v
+		}
+	}
+	return out
 }
 
 func (d *Data) fix() {
@@ -126,13 +178,14 @@ type tableRow struct {
 // mockTable is a planner.Table whose rows hold one sequence per field, built
 // with the real Sequence.UpdateValue from the points of the data set.
 type mockTable struct {
-	name   string
-	all    []TField
-	fields core.Fields // included fields
-	rows   []*tableRow
-	partBy []string
-	label  string
-	iters  *int32 // counts Iterate calls (a partition runs one table scan per statement it is sent)
+	name    string
+	all     []TField
+	fields  core.Fields // included fields
+	rows    []*tableRow
+	partBy  []string
+	label   string
+	groupBy []core.GroupBy
+	iters   *int32 // counts Iterate calls (a partition runs one table scan per statement it is sent)
 }
 
 func coreFields(fs []TField) core.Fields {
@@ -173,7 +226,7 @@ func buildRows(fs []TField, points []Point) []*tableRow {
 	return out
 }
 
-func (t *mockTable) GetGroupBy() []core.GroupBy   { return []core.GroupBy{} }
+func (t *mockTable) GetGroupBy() []core.GroupBy   { return t.groupBy }
 func (t *mockTable) GetResolution() time.Duration { return tableRes }
 func (t *mockTable) GetAsOf() time.Time           { return tableAs }
 func (t *mockTable) GetUntil() time.Time          { return epoch }
@@ -229,11 +282,30 @@ type world struct {
 
 func newWorld(d *Data) *world {
 	w := &world{data: d}
-	w.union = buildRows(d.Fields, d.Points)
+	if len(d.TableGB) == 0 {
+		w.union = buildRows(d.Fields, d.Points)
+		w.parts = make([][]*tableRow, d.NumPart)
+		for _, r := range w.union {
+			p := partitionFor(r.key, d.PartBy, d.NumPart)
+			w.parts[p] = append(w.parts[p], r)
+		}
+		return w
+	}
+	// a table with its own GROUP BY: every point is routed by its own dimensions
+	// (cluster_follow.go partitionFor on the inserted point), each partition stores it under
+	// the projected key; the single node stores all points under their projected keys
+	all := make([]Point, 0, len(d.Points))
+	byPart := make([][]Point, d.NumPart)
+	for _, p := range d.Points {
+		sp := Point{Dims: d.storedDims(p.Dims), Back: p.Back, Vals: p.Vals}
+		all = append(all, sp)
+		part := partitionFor(bytemap.New(p.Dims), d.PartBy, d.NumPart)
+		byPart[part] = append(byPart[part], sp)
+	}
+	w.union = buildRows(d.Fields, all)
 	w.parts = make([][]*tableRow, d.NumPart)
-	for _, r := range w.union {
-		p := partitionFor(r.key, d.PartBy, d.NumPart)
-		w.parts[p] = append(w.parts[p], r)
+	for i := range byPart {
+		w.parts[i] = buildRows(d.Fields, byPart[i])
 	}
 	return w
 }
@@ -251,7 +323,7 @@ func (w *world) getTableCounting(rows []*tableRow, label string, iters *int32) f
 		if err != nil {
 			return nil, err
 		}
-		return &mockTable{name: table, all: w.data.Fields, fields: included, rows: rows, partBy: w.data.PartBy, label: label, iters: iters}, nil
+		return &mockTable{name: table, all: w.data.Fields, fields: included, rows: rows, partBy: w.data.PartBy, label: label, iters: iters, groupBy: w.data.tableGroupBy()}, nil
 	}
 }
 
